@@ -8,7 +8,7 @@ ARTEFACTS = ["G1-consts", "G2-rs-portable", "G3-arith", "G4-listings"]
 RULE = ("every script of the C01/C02/C03/C09 generators is replicated at each forced platform {portable, sse2, sse41, avx2, avx512} "
         "(hook: thread-local override in Platform::detect) and compared with the ONE Lean model (whose SIMD degree is a parameter) and "
         "the spec, which makes all levels equal to each other; the same scripts run against a `pure` build (Rust intrinsics, no "
-        "assembly) in the quick tier and additionally prefer_intrinsics, no_avx512, no_avx2, no_sse41, no_sse2 builds in the thorough "
+        "assembly) in the quick tier (plus the deterministic ones against prefer_intrinsics = C intrinsics) and additionally prefer_intrinsics, no_avx512, no_avx2, no_sse41, no_sse2 builds in the thorough "
         "tier (stock feature flags cross-check the hook); non-trivial = script with >= 2 chunks of input; distinct = distinct script")
 ASSUMPTIONS = ["NEON and wasm cannot run on this machine; they are outside the property's list",
                "no-default-features / optional features only add or remove API surface: exercised by building the harness with them, not by a separate model"]
@@ -44,6 +44,10 @@ def stages(tier, seed, witness_search=False):
         k *= 3
     scripts = replicate(base_scripts(rng, k))
     st = [LineStage("default-build", scripts, normalize=norm_all), LineStage("pure-build", scripts, features=("pure",), normalize=norm_all)]
+    if tier == "quick":
+        # the C intrinsics build (third kernel family) on the deterministic part: one-shot lengths and the xof boundary grids
+        det = [sc for sc in scripts if "oneshot" in sc.tags or "boundary-grid" in sc.tags]
+        st.append(LineStage("prefer_intrinsics-build", det, features=("prefer_intrinsics",), normalize=norm_all))
     if tier == "thorough":
         for f in ["prefer_intrinsics", "no_avx512", "no_avx2", "no_sse41", "no_sse2"]:
             st.append(LineStage(f + "-build", scripts, features=(f,), normalize=norm_all))
